@@ -7,6 +7,7 @@ package faultrig
 
 import (
 	"context"
+	"crypto/x509"
 	"errors"
 	"fmt"
 	"net"
@@ -41,6 +42,7 @@ type Options struct {
 	TLSListener       bool // the proxy listener speaks TLS (self-signed certificate)
 	TLSHandshakeTimeout   time.Duration // transport: TLS handshake timeout towards the origin
 	ResponseHeaderTimeout time.Duration // transport: time to wait for the origin's response head
+	MITMH2Roots           *x509.CertPool    // MITM: enable martian's h2 relay, origin certificates verified against this pool
 	Handler               bool              // serve through martian's http.Handler implementation on net/http's server (TestingHTTPHandler)
 	ProxyProtocol         time.Duration     // > 0: the listener expects a PROXY protocol header (value = header read timeout)
 	Redirect              map[string]string // dial redirect (--connect-to): requested host:port -> address actually dialled
@@ -208,6 +210,9 @@ func New(opt Options) (*Rig, error) {
 		return nil, err
 	}
 	r.HP = hp
+	if opt.MITM && opt.MITMH2Roots != nil {
+		hp.VerifEnableMITMH2(opt.MITMH2Roots)
+	}
 	hp.VerifObserveTrace(r.onRead, r.onWrote)
 	addrs, ok := hp.Addr()
 	if !ok || len(addrs) == 0 {
